@@ -263,4 +263,6 @@ fn determine_result_transition<F>(event: &SweepEvent<F>, operation: Operation) -
 }
 
 pub fn possible_intersection<F>(""")]),
+    B('order-events-std-sort-full-order', ['C02', 'C15'], [(CE, "    let mut sorted = false;\n    while !sorted {\n        sorted = true;\n        for i in 1..result_events.len() {\n            if result_events[i - 1] < result_events[i] {\n                result_events.swap(i - 1, i);\n                sorted = false;\n            }\n        }\n    }", "    result_events.sort_by(|a, b| b.cmp(a));")]),
+    M('order-events-std-sort-ascending', ['C02', 'C15'], [(CE, "    let mut sorted = false;\n    while !sorted {\n        sorted = true;\n        for i in 1..result_events.len() {\n            if result_events[i - 1] < result_events[i] {\n                result_events.swap(i - 1, i);\n                sorted = false;\n            }\n        }\n    }", "    result_events.sort_by(|a, b| a.cmp(b));")], {'C02': 'T-walk-order', 'C15': 'O-consumers'}),
 ]
